@@ -260,6 +260,7 @@ func (r *Reader) initFields() error {
 	}
 
 	// Populate children, add implicit directories:
+	var hardlinkSources []*TOCEntry
 	for _, ent := range r.toc.Entries {
 		if ent.Type == "chunk" {
 			continue
@@ -298,9 +299,17 @@ func (r *Reader) initFields() error {
 				return fmt.Errorf("%q is a hardlink to the directory %q", ent.Name, ent.LinkName)
 			}
 			org.NumLink++ // original entry is referenced by this ent.Name.
+			hardlinkSources = append(hardlinkSources, org)
 			ent = org
 		}
 		pdir.addChild(path.Base(name), ent)
+	}
+	for _, org := range hardlinkSources {
+		if len(org.children) > 0 {
+			// An entry reachable through several names must not have children. Otherwise the
+			// tree can contain a cycle.
+			return fmt.Errorf("%q is a source of a hardlink but is used as a directory", org.Name)
+		}
 	}
 
 	lastOffset := r.sr.Size()
